@@ -1,6 +1,7 @@
 package props
 
 import (
+	"time"
 	"bytes"
 	"fmt"
 	"strings"
@@ -189,6 +190,7 @@ func cmpTree(cs *h.Case, api string, base []byte, pn *generic.PathNode, m *tref.
 }
 
 func runC05(c *h.Ctx) {
+	defer c05DeepLoad(c)
 	c.Run("dom", c.N(8000, 200000), func(cs *h.Case) {
 		tree := generic.NewPathNode()
 		defer generic.FreePathNode(tree)
@@ -735,4 +737,52 @@ func c05Edits(cs *h.Case, tree *generic.PathNode, v *tref.Val, o *generic.Option
 		}
 	}
 	return true
+}
+
+// c05DeepLoad: values nested up to and beyond the depth at which skipping gives up (1023): a recursive Load walks
+// every level itself, so - whatever the option vector - it either reports an error or the tree marshals back to the
+// very bytes.
+func c05DeepLoad(c *h.Ctx) {
+	c.Run("deep-load", c.N(24, 96), func(cs *h.Case) {
+		depth := []int{900, 1022, 1023, 1024, 1025, 1100, 1500, 3000}[cs.I%8]
+		// a chain of structs / lists / maps (kinds mixed), a string at the bottom, a sibling behind every level
+		v := tref.Str("bottom")
+		for i := 0; i < depth; i++ {
+			switch (i + cs.I) % 3 {
+			case 0:
+				v = tref.Struct(tref.Field{ID: 1, V: v}, tref.Field{ID: 2, V: tref.Int32(int32(i))})
+			case 1:
+				v = &tref.Val{T: tref.LIST, ET: v.T, L: []*tref.Val{v}}
+			default:
+				v = &tref.Val{T: tref.MAP, KT: tref.I32, ET: v.T, K: []*tref.Val{tref.Int32(int32(i))}, L: []*tref.Val{v}}
+			}
+		}
+		root := tref.Struct(tref.Field{ID: 1, V: v}, tref.Field{ID: 2, V: tref.Str("tail")})
+		b := tref.Encode(root)
+		bits := cs.R.Intn(32)
+		o := &generic.Options{UseNativeSkip: bits&1 != 0, StoreChildrenById: bits&2 != 0, NotScanParentNode: cs.I%2 == 0, StoreChildrenByHash: bits&8 != 0}
+		tree := generic.PathNode{Node: generic.NewNode(thrift.STRUCT, b)}
+		cs.Info("depth", depth)
+		cs.Info("opts", fmt.Sprintf("%+v", *o))
+		var err error
+		var out []byte
+		cs.Guarded("PathNode.Load+deep", 60*time.Second, func() {
+			if err = tree.Load(true, o); err == nil {
+				out, err = tree.Marshal(o)
+			}
+		})
+		if err != nil {
+			cs.Cover("deep_load_error_returned")
+			return
+		}
+		if !bytes.Equal(out, b) {
+			cs.Viol("dom:deep-load:Marshal:bytes", "depth", depth, "in-len", len(b), "out-len", len(out), "not-scan-parent", o.NotScanParentNode)
+			return
+		}
+		cs.Cover("deep_load_ok")
+		if depth > 1023 {
+			cs.Cover("deep_load_beyond_skip_depth_ok")
+		}
+		cs.Distinct(fmt.Sprintf("deepload-%d-%v", depth, o.NotScanParentNode))
+	})
 }
